@@ -117,10 +117,10 @@ class VecVal:
 
 class SliceIter:
     """core::slice::Iter over a VecVal / array: `pos` (concrete) elements already consumed"""
-    __slots__ = ("items", "n", "pos")
+    __slots__ = ("items", "n", "pos", "enumerate")
 
-    def __init__(self, items, n, pos):
-        self.items, self.n, self.pos = list(items), n, pos
+    def __init__(self, items, n, pos, enumerate=False):
+        self.items, self.n, self.pos, self.enumerate = list(items), n, pos, enumerate
 
     def __repr__(self):
         return "SliceIter(pos=%r, n=%r)" % (self.pos, self.n)
@@ -242,7 +242,11 @@ class Executor:
                         self.by_key[(tyname, tr, meth)] = f
                     continue
                 tr, ty = hdr
-                self.by_key[(_last_seg(ty), _last_seg(tr) if tr else None, meth)] = f
+                if tr and "<" in tr:
+                    # `impl PartialEq<f64> for T` must not shadow `impl PartialEq for T` (derived) under the bare trait name
+                    self.by_key.setdefault((_last_seg(ty), _last_seg(tr), meth), f)
+                else:
+                    self.by_key[(_last_seg(ty), _last_seg(tr) if tr else None, meth)] = f
                 if tr and "<" in tr:
                     full = _last_seg(tr) + _norm_generics(tr[tr.index("<"):])
                     self.by_key[(_last_seg(ty), full, meth)] = f
@@ -712,6 +716,16 @@ class Executor:
             if alt in self.consts:
                 name = alt
         cands = [n for n in self.consts if n == name or n.endswith("::" + name) or name.endswith("::" + n)]
+        if not cands:
+            # inherent associated constant `path::Type::NAME`: printed as `module::<impl at file:line>::NAME` in the dump
+            mt = re.match(r"^(?:.*::)?([A-Z]\w*)::([A-Z][A-Z0-9_]*)$", name)
+            if mt:
+                for n in self.consts:
+                    mi = re.match(r"^.*<impl at (src/[^:]+):(\d+):\d+: \d+:\d+>::" + re.escape(mt.group(2)) + "$", n)
+                    if mi:
+                        hdr = self.src.impl_at(mi.group(1), int(mi.group(2)))
+                        if hdr and hdr[0] is None and _last_seg(hdr[1]) == mt.group(1):
+                            cands.append(n)
         if len(cands) >= 1:
             cands.sort(key=len)
             cn = cands[-1] if name in cands else cands[0]
@@ -740,6 +754,10 @@ class Executor:
             v = self._assoc_const(m.group(1), m.group(2), m.group(3))
             if v is not None:
                 return v
+        m = re.match(r"^(?:core::num::|std::num::)?NonZero::<([iu]\d+|[iu]size)>::(MAX|MIN)$", s)
+        if m:
+            lo, hi = ty_range(m.group(1))
+            return Int(hi if m.group(2) == "MAX" else (1 if lo == 0 else lo), m.group(1))
         m = re.match(r"^(?:core::num::<impl )?([iu]\d+|[iu]size)(?:>)?::(MAX|MIN)$", s)
         if m:
             lo, hi = ty_range(m.group(1))
@@ -849,6 +867,9 @@ class Executor:
         if path.startswith("{closure"):
             return Agg(ops)
         if k == "agg_unit":
+            # a bare field-less variant (`_1 = Equal;`): core::cmp::Ordering is printed without its path
+            if len(segs) == 1 and last in ("Less", "Equal", "Greater"):
+                return Enum({"Less": -1, "Equal": 0, "Greater": 1}[last], {-1: [], 0: [], 1: []}, "Ordering")
             return Opaque("unit:" + path)
         if names is None and k == "agg_tuple":
             # tuple struct from another crate (e.g. NonZero) or unknown: keep the fields
@@ -963,6 +984,8 @@ class Executor:
         if target is None:
             # provided (default) trait methods of core: `ne` through the impl's `eq`, `lt/le/gt/ge` through `partial_cmp`
             md = re.match(r"^(<.+ as .+>)::(ne|lt|le|gt|ge)$", _strip_generics(callee))
+            if md and callee.startswith("<&"):
+                args = [self._deref_once(st, a) for a in args]
             if md:
                 base, meth = md.group(1), md.group(2)
                 orig_prefix = callee[:callee.rindex("::")]
@@ -982,7 +1005,19 @@ class Executor:
                             f = {"lt": lt(o, 0), "le": le(o, 0), "gt": gt(o, 0), "ge": ge(o, 0)}[meth]
                             return Bool(and_(some, f))
             raise NotEncodable("unresolved callee `%s` (from %s)" % (callee, fn.name))
+        if callee.startswith("<&") and not target.name.startswith("<&"):
+            # `<&T as Trait>::m(&&a, ..)` forwarded to T's impl: drop the extra reference level
+            args = [self._deref_once(st, a) for a in args]
         return self._exec_fn(st, target, args, depth + 1)
+
+    def _deref_once(self, st, v):
+        if isinstance(v, Ref):
+            fr = st.frames.get(v.uid)
+            if fr is not None and v.local in fr:
+                inner = self._project(fr[v.local], list(v.proj))
+                if isinstance(inner, Ref):
+                    return inner
+        return v
 
     def call_path(self, st, callee, args, depth=5):
         """call `callee` (MIR callee text) from a model: externals, models and MIR bodies are tried as for any call"""
@@ -1041,7 +1076,11 @@ class Executor:
         if m:
             ty, tr, meth = m.group(1).strip(), _last_seg(_strip_generics(m.group(2))), m.group(3)
             tyl = _last_seg(_strip_generics(ty.lstrip("&").replace("mut ", "")))
-            f = self.lookup(tyl, m.group(2).strip(), meth)
+            trait_full = m.group(2).strip()
+            if ty.startswith("&"):
+                # `impl PartialEq<&B> for &A` forwards to `impl PartialEq<B> for A`
+                trait_full = re.sub(r"<&(?:'\w+ )?(?:mut )?", "<", trait_full)
+            f = self.lookup(tyl, trait_full, meth)
             if f is None:
                 f = self.lookup(tyl, tr, meth)
             if f is None and args:
